@@ -113,7 +113,7 @@ def run_sequences(c):
     def rq(name, auth=True, i=1, add=(), rem=()):
         return {"name": name, "auth": auth, "i": i, "add": list(add), "rem": list(rem)}
     fixed = {"reqs": [rq("editComment", i=3), rq("changeLabels", rem=["x"]), rq("setTitle", auth=False), rq("addCommentAndClose"), rq("addCommentAndReopen"),
-                      rq("changeLabels", add=["x", "y"]), rq("changeLabels", add=["x"], rem=["y"]), rq("editComment", i=2), rq("editComment", i=1), rq("closeBug"),
+                      rq("changeLabels", add=["x", "y"]), rq("changeLabels", add=["x"], rem=["y"]), rq("editComment", i=2), rq("editCommentAmbiguous"), rq("editComment", i=1), rq("closeBug"),
                       rq("closeBug"), rq("openBug", auth=False), rq("openBug"), rq("setTitle"), rq("setTitleEmpty"), rq("unknownBug"), rq("addComment", auth=False),
                       rq("addComment"), rq("changeLabels", rem=["x", "y"])]}
     scheds = [fixed, fixed, fixed] + seq_schedules(c, 45 if c.tier == "quick" else 1500)     # the fixed one under each configured user
@@ -136,7 +136,7 @@ def run_sequences(c):
             key = "%s:%s:%s" % (e["name"], "auth" if e["auth"] else "anon", "refused" if e["refused"] else "done")
             names[key] = names.get(key, 0) + 1
     c.cov["sequence_outcomes"] = names
-    for need in ("addCommentAndReopen:auth:done", "changeLabels:auth:refused", "editComment:auth:refused", "setTitle:anon:refused"):
+    for need in ("addCommentAndReopen:auth:done", "changeLabels:auth:refused", "editComment:auth:refused", "setTitle:anon:refused", "editCommentAmbiguous:auth:refused"):
         if need not in names:
             raise Broken("request sequences never produced %s" % need)
     seen = set()
